@@ -133,11 +133,11 @@ type nodeSt struct {
 func (n *nodeSt) path() []string { return []string{n.dc, n.rack, n.ip + ":80"} }
 
 type hist struct {
-	topo      *topology.Topology
-	ops, obs  []string
-	canon     []string
-	payload   bool
-	out       *hx.Out
+	topo     *topology.Topology
+	ops, obs []string
+	canon    []string
+	payload  bool
+	out      *hx.Out
 }
 
 func newHist(out *hx.Out) *hist {
